@@ -197,6 +197,14 @@ OBJ_LISTS = [
 
 QUICK_LISTS = TEST_LISTS + CORNER_LISTS + OBJ_LISTS
 
+# lists on which the constructor's byte budget under-estimates the worst-case padding (known finding D30): a varying span
+# whose item size is not a multiple of its alignment, followed by a lower-aligned field.  Used by C02 only.
+FIT_LISTS = [
+    PL("FitOverAlignedSpanThenFixed", COUNT8, V("u64", 32), F("obj4")),
+    PL("FitOddItemSpanThenFixed", COUNT8, V("t3", 4), F("t24")),
+    PL("FitOverAlignedSpanThenOdd", COUNT8, V("u16", 32), P("t3", 1)),
+]
+
 
 def thorough_lists(seed, limit=400):
     """systematic short lists over the shape alphabet + a seeded sample of longer ones"""
